@@ -2131,6 +2131,16 @@ impl MetadataClient for ObjectStoreMetadataClient {
         Err(Error::TooManyRetries)
     }
 
+    async fn active_split_new_shards(&self) -> Result<Vec<String>> {
+        use crate::sharding::SplitPhase;
+        let (states, _) = self.load_split_states_with_etag().await?;
+        Ok(states
+            .values()
+            .filter(|s| matches!(s.phase, SplitPhase::DualWrite | SplitPhase::Backfill))
+            .flat_map(|s| s.new_shards.clone())
+            .collect())
+    }
+
     async fn has_active_split(&self) -> Result<bool> {
         use crate::sharding::SplitPhase;
         let (states, _) = self.load_split_states_with_etag().await?;
